@@ -1407,6 +1407,10 @@ def eval_term(t, env):
             return int({"Lt": a < b, "Le": a <= b, "Gt": a > b, "Ge": a >= b, "Eq": a == b, "Ne": a != b}[op])
         if op in ("BitAnd", "BitOr", "BitXor", "Add", "Sub", "Shr", "Shl"):
             return {"BitAnd": a & b, "BitOr": a | b, "BitXor": a ^ b, "Add": a + b, "Sub": a - b, "Shr": a >> b, "Shl": a << b}[op]
+        if op == "Mul":
+            return a * b
+        if op in ("Rem", "Div") and b != 0 and a >= 0 and b > 0:
+            return a % b if op == "Rem" else a // b
     return None
 
 
